@@ -1,10 +1,26 @@
 --------------------------- MODULE Trace_Calendar ---------------------------
-(* Trace validation for property C05.  Each line of the log is one real calendar, made and      *)
-(* fetched through the registry calendar(...), with the queries put to it:                      *)
-(*   [cfg |-> [hol, wk, adj, lo, hi], qs |-> << [q |-> query, out |-> encoded outcome], ... >>]  *)
-(* Every query is recomputed by counting on ordinals (law level of Calendar.tla).  The pseudo   *)
-(* query "fetch" asks calendar(key) for its holidays.  The verdict names the first query the    *)
-(* specification does not explain, as "<clause>:<position>".                                     *)
+(* Trace validation for property C05.  Two kinds of log lines:                                   *)
+(* (1) one real calendar, made and fetched through the registry calendar(...), with the queries  *)
+(*     put to it:                                                                                *)
+(*   [cfg |-> [hol, wk, adj, lo, hi], edge |-> 0 | 1, qs |-> << [q |-> query, out |-> outcome], ... >>] *)
+(*     Every query is recomputed by counting on ordinals (law level of Calendar.tla).  The       *)
+(*     pseudo query "fetch" asks calendar(key) for its holidays.  edge = 1: the calendar's range  *)
+(*     is tight (its first / last day can be a holiday or a weekend day) and the driver asks at   *)
+(*     and next to the ends without knowing the claimed domain: questions outside it are not      *)
+(*     judged.  edge = 0: the driver stays inside the domain by construction and leaving it is    *)
+(*     reported.                                                                                  *)
+(* (2) one recorded HISTORY of the registry on real calendars (evs |-> << event, ... >>):         *)
+(*   [op |-> "reg",  k, p, out]       calendar(k, <what p gives>)      out = the holidays listed  *)
+(*   [op |-> "con",  k, p, adj, out]  Calendar(k, <what p gives>, adj)                            *)
+(*   [op |-> "rego", o, out]          calendar(obj)                    o = position in the heap   *)
+(*   [op |-> "regw", o, p, out]       calendar(obj, <what p gives>)                               *)
+(*   [op |-> "fetch", k, out]         calendar(k).holidays                                        *)
+(*   [op |-> "q", k, q, out]          calendar(k).<query>      [op |-> "qo", o, q, out]  obj.<query> *)
+(*     p = [hol, wk, lo, hi], each <<>> (not given) or <<value>> (given, possibly empty).  The    *)
+(*     specification walks the history with the law of Calendar.tla part 4 (RegisteredCfg /       *)
+(*     DerivedCfg: what each key was last registered with) and judges every outcome.              *)
+(* The verdict names the first outcome the specification does not explain, as                     *)
+(* "<clause>:<position>".                                                                         *)
 EXTENDS Calendar, Batch, FiniteSetsExt
 
 CfgOf(o) == [hol |-> ToSet(o.cfg.hol), wk |-> ToSet(o.cfg.wk), adj |-> o.cfg.adj, lo |-> o.cfg.lo, hi |-> o.cfg.hi]
@@ -12,19 +28,73 @@ GoodCfg(k) == /\ k.adj \in {"f", "p", "m"} /\ k.wk \in {{5, 6}, {4, 5}, {6}, {}}
               /\ k.lo <= k.hi /\ \A d \in k.hol : InRange(k, d)
 
 \* "" if the outcome of e is explained, else the clause
-Judge(k, e) ==
+Judge(k, e, edge) ==
     LET q == e.q  out == e.out IN
     IF q.op = "fetch" THEN (IF out.kind = "val" /\ out.v = SetToSortSeq(k.hol, <) THEN "" ELSE "registry_reflects_holidays")
     ELSE IF MonthNo(q.t) # MonthOf(q.t) THEN "spec_monthno"                      \* self-check of the specification
-    ELSE IF ~InDomain(k, q) THEN "out_of_domain"
+    ELSE IF ~InDomain(k, q) THEN (IF edge THEN "" ELSE "out_of_domain")
     ELSE IF ~Pinned(k, q) THEN ""
     ELSE IF out.kind = "val" /\ out.v \in AcceptedAnswers(k, q) THEN "" ELSE q.op
 
-Verdict(o) ==
+VerdictCal(o) ==
     LET k == CfgOf(o) IN
     IF ~GoodCfg(k) THEN "bad_config:0"
-    ELSE LET bad == {i \in 1..Len(o.qs) : Judge(k, o.qs[i]) # ""} IN
-         IF bad = {} THEN "" ELSE LET i == Min(bad) IN Judge(k, o.qs[i]) \o ":" \o ToString(i)
+    ELSE LET bad == {i \in 1..Len(o.qs) : Judge(k, o.qs[i], o.edge = 1) # ""} IN
+         IF bad = {} THEN "" ELSE LET i == Min(bad) IN Judge(k, o.qs[i], o.edge = 1) \o ":" \o ToString(i)
+
+\* ---- histories ---------------------------------------------------------------------------------
+TKeys == {"a", "b", "cf"}
+PIn(p) == [hol |-> IF p.hol = <<>> THEN <<>> ELSE <<ToSet(p.hol[1])>>, wk |-> IF p.wk = <<>> THEN <<>> ELSE <<ToSet(p.wk[1])>>,
+           lo |-> p.lo, hi |-> p.hi]
+Lists(out, H) == out.kind = "val" /\ out.v = SetToSortSeq(H, <)
+At2(i, clause) == clause \o ":" \o ToString(i)
+\* a query on a calendar of configuration cf: questions outside the claimed domain, not pinned by the statement, or
+\* relying on the (unpinned) convention of a derived calendar are not judged
+JudgeQ(cf, e) ==
+    LET q == e.q IN
+    IF q.a = "" /\ q.op \notin {"is_bday", "is_holiday"} /\ cf.adj = "?" THEN ""
+    ELSE IF ~InDomain(cf, q) \/ ~Pinned(cf, q) THEN ""
+    ELSE IF e.out.kind = "val" /\ e.out.v \in AcceptedAnswers(cf, q) THEN "" ELSE "registry_query_" \o q.op
+\* heap: the calendars in the order the driver obtained them, [key, cfg, loose]; reg: key -> position in the heap
+\* (0 = none).  loose = made with Calendar(...) and never registered: only such handles are asked directly (the
+\* statement speaks of calendars fetched by key, not of handles kept from earlier registrations)
+RECURSIVE Walk(_, _, _, _)
+Walk(evs, i, heap, reg) ==
+    IF i > Len(evs) THEN "" ELSE
+    LET e == evs[i]
+        takes(k, cf) == Walk(evs, i + 1, Append(heap, [key |-> k, cfg |-> cf, loose |-> FALSE]), [reg EXCEPT ![k] = Len(heap) + 1])
+    IN
+    CASE e.op = "reg" ->
+           LET P == PIn(e.p)  cf == RegisteredCfg(P) IN
+           IF e.k \notin TKeys \/ ~AnyGiven(P) \/ ~WellCfg(cf) THEN At2(i, "bad_history")
+           ELSE IF ~Lists(e.out, cf.hol) THEN At2(i, "registry_reflects_holidays") ELSE takes(e.k, cf)
+      [] e.op = "con" ->
+           LET P == PIn(e.p)  cf == [RegisteredCfg(P) EXCEPT !.adj = e.adj] IN
+           IF e.k \notin TKeys \/ ~WellCfg(cf) \/ e.adj \notin {"f", "p", "m"} THEN At2(i, "bad_history")
+           ELSE IF ~Lists(e.out, cf.hol) THEN At2(i, "registry_reflects_holidays")
+           ELSE Walk(evs, i + 1, Append(heap, [key |-> e.k, cfg |-> cf, loose |-> TRUE]), reg)
+      [] e.op = "rego" ->
+           IF e.o \notin 1..Len(heap) THEN At2(i, "bad_history")
+           ELSE IF ~Lists(e.out, heap[e.o].cfg.hol) THEN At2(i, "registry_reflects_holidays")
+           ELSE Walk(evs, i + 1, [heap EXCEPT ![e.o].loose = FALSE], [reg EXCEPT ![heap[e.o].key] = e.o])
+      [] e.op = "regw" ->
+           IF e.o \notin 1..Len(heap) THEN At2(i, "bad_history") ELSE
+           LET P == PIn(e.p)  cf == DerivedCfg(heap[e.o].cfg, P) IN
+           IF ~AnyGiven(P) \/ ~WellCfg(cf) THEN At2(i, "bad_history")
+           ELSE IF ~Lists(e.out, cf.hol) THEN At2(i, "registry_reflects_holidays") ELSE takes(heap[e.o].key, cf)
+      [] e.op = "fetch" ->
+           IF e.k \notin TKeys \/ reg[e.k] = 0 THEN At2(i, "bad_history")
+           ELSE IF ~Lists(e.out, heap[reg[e.k]].cfg.hol) THEN At2(i, "registry_reflects_holidays") ELSE Walk(evs, i + 1, heap, reg)
+      [] e.op = "q" ->
+           IF e.k \notin TKeys \/ reg[e.k] = 0 THEN At2(i, "bad_history")
+           ELSE LET v == JudgeQ(heap[reg[e.k]].cfg, e) IN IF v # "" THEN At2(i, v) ELSE Walk(evs, i + 1, heap, reg)
+      [] e.op = "qo" ->
+           IF e.o \notin 1..Len(heap) THEN At2(i, "bad_history")
+           ELSE LET v == IF heap[e.o].loose THEN JudgeQ(heap[e.o].cfg, e) ELSE "" IN IF v # "" THEN At2(i, v) ELSE Walk(evs, i + 1, heap, reg)
+      [] OTHER -> At2(i, "bad_history")
+VerdictHist(o) == Walk(o.evs, 1, <<>>, [k \in TKeys |-> 0])
+
+Verdict(o) == IF "evs" \in DOMAIN o THEN VerdictHist(o) ELSE VerdictCal(o)
 
 Init == BatchInit
 Next == BatchNext(Verdict)
